@@ -60,11 +60,20 @@ theorem split_tail {dt k dt' k' : String} {tg tg' : Nat} {a b : Chunk} {d1 d2 : 
   have g2 := mkChunk_head hc2
   simp [m1, m2, g1, g2]
 
+/-- a successful `Chunk.split` is a successful `splitCore` (the `is_superrun`-raises branch never succeeds) -/
+theorem splitCore_of_split_ok {c a b : Chunk} {t : Int} {early : Bool} (h : c.split t early = .ok (a, b)) :
+    c.splitCore t early = .ok (a, b) := by
+  unfold Chunk.split at h
+  split at h
+  · split at h <;> cases h
+  · exact h
+
 /-- what `Chunk.split` guarantees whenever it succeeds (any `t`, early split or not) -/
 theorem split_ok {c a b : Chunk} {t : Int} {early : Bool} (h : c.split t early = .ok (a, b)) :
     a.rows ++ b.rows = c.rows ∧ a.start = c.start ∧ b.start = a.stop ∧ a.start ≤ a.stop ∧
       b.start ≤ b.stop ∧ headOK a ∧ headOK b := by
-  unfold Chunk.split at h
+  have h := splitCore_of_split_ok h
+  unfold Chunk.splitCore at h
   simp only [bind, pure, Except.pure] at h
   split at h
   · obtain ⟨x, hx, h⟩ := bind_ok h
